@@ -10,7 +10,7 @@ Large N: observation events (ObsC09.tla).
 import numpy as np
 
 from .. import core, material as M, tlc, obs
-from ..kern_util import call_guard, cmp_vec
+from ..kern_util import scale_for, call_guard, cmp_vec
 
 NORMS = ('biased', 'unbiased', None, 'coeff')
 
@@ -69,6 +69,28 @@ def replay_corr(chk, st, cplx):
                                      np.asarray(res).tolist(), exp[:L + 1].tolist()), dict(case, observed=res))
                 if not cplx and ok and np.iscomplexobj(res):
                     chk.violation('C09:CORRELATION:real-gives-complex', 'real input gives a complex correlation', case)
+        # homogeneity of degree 2 (0 for coeff): the same state at a scale far from 1, results un-scaled
+        if kind == 'ndarray':
+            cnt = getattr(chk, '_c09_scale', 0)
+            chk._c09_scale = cnt + 1
+            c = scale_for(cnt)
+            for norm, exp in expect.items():
+                if norm == 'coeff' and not auto:
+                    continue
+                ok, res = call_guard(CORRELATION, x * c, None if y is None else y * c, maxlags=N - 1, norm=norm)
+                un = 1.0 if norm == 'coeff' else c * c
+                bad = ('raises %r' % (res,)) if not ok else cmp_vec(np.asarray(res) / un, exp[:N], name='r')
+                if bad:
+                    chk.violation('C09:CORRELATION:%s:%s:norm=%s:scaled-input' % (mode, lens, norm),
+                                  'CORRELATION(c*x, c*y, norm=%s)/c^2 with c=%g differs from the definition: %s' % (norm, c, bad),
+                                  {'fn': 'CORRELATION', 'x': x, 'y': y, 'scale': c, 'norm': norm, 'expect': exp[:N]})
+                if lens == 'equal':
+                    ok, res = call_guard(xcorr, x * c, None if y is None else y * c, maxlags=N - 1, norm=norm)
+                    bad = ('raises %r' % (res,)) if not ok else cmp_vec(np.asarray(res[0])[N - 1:] / un, exp[:N], name='r')
+                    if bad:
+                        chk.violation('C09:xcorr:%s:norm=%s:scaled-input' % (mode, norm),
+                                      'xcorr(c*x, c*y, norm=%s)/c^2 with c=%g differs from the definition at lags >= 0: %s' % (norm, c, bad),
+                                      {'fn': 'xcorr', 'x': x, 'y': y, 'scale': c, 'norm': norm, 'expect': exp[:N]})
         # two-sided variant (equal lengths only: xcorr refuses the others)
         if lens == 'equal' and kind != 'list':
             yy = x if y is None else y
